@@ -5,9 +5,63 @@ import StirVerif.C01.Model
 
 namespace StirVerif.C01
 
-/-- the arithmetic condition under which the axial position of a single-ring-difference segment is exact
-    (otherwise the source only prints "LORs shifted with respect to the physical rings") -/
-def Seg.Exact (s : Seg) (off : Int) : Prop := s.minRD = s.maxRD → (s.minRD - off) % 2 = 0
+
+/-! ### C division / remainder by 2, in a form `omega` can use -/
+
+theorem tdiv2_spec (x : Int) :
+    (0 ≤ x → x.tdiv 2 = x / 2) ∧ (x < 0 → x.tdiv 2 = -((-x) / 2)) := by
+  constructor
+  · intro h
+    exact Int.tdiv_eq_ediv_of_nonneg h
+  · intro h
+    have h' : x = -(-x) := by omega
+    rw [h', Int.neg_tdiv, Int.tdiv_eq_ediv_of_nonneg (by omega)]
+    simp
+
+theorem tmod2_spec (x : Int) : x.tmod 2 = x - 2 * x.tdiv 2 := Int.tmod_def x 2
+
+/-- the stepping loop, for an arbitrary ring sum -/
+theorem Seg.mem_loop_iff (R : Int) (s : Seg) (off a : Int) (r1 r2 : Int) :
+    (r1, r2) ∈ s.ringPairsOf R off a ↔
+      (0 ≤ r1 ∧ r1 < R ∧ 0 ≤ r2 ∧ r2 < R ∧ s.minRD ≤ r2 - r1 ∧ r2 - r1 ≤ s.maxRD ∧
+        r1 + r2 = s.ringSum off a) := by
+  unfold Seg.ringPairsOf
+  generalize s.ringSum off a = sum
+  simp only [List.mem_filterMap, List.mem_range]
+  have hm := tmod2_spec (s.minRD + sum)
+  have hq := tdiv2_spec (s.minRD + sum)
+  generalize (s.minRD + sum).tmod 2 = m at *
+  generalize (s.minRD + sum).tdiv 2 = q at *
+  constructor
+  · rintro ⟨k, hk, h⟩
+    split at h
+    · exact absurd h (by simp)
+    · rename_i hn
+      simp only [Option.some.injEq, Prod.mk.injEq] at h
+      have hx := tdiv2_spec (sum - (s.minRD + m + 2 * (k : Int)))
+      have hy := tdiv2_spec (sum + (s.minRD + m + 2 * (k : Int)))
+      obtain ⟨h1, h2⟩ := h
+      rw [h1, h2] at hn
+      rw [h1] at hx
+      rw [h2] at hy
+      split at hk
+      · omega
+      · omega
+  · rintro ⟨h1, h2, h3, h4, h5, h6, h7⟩
+    refine ⟨((r2 - r1 - (s.minRD + m)) / 2).toNat, ?_, ?_⟩
+    · split
+      · omega
+      · omega
+    · have hk : (((r2 - r1 - (s.minRD + m)) / 2).toNat : Int) = (r2 - r1 - (s.minRD + m)) / 2 := by omega
+      rw [hk]
+      have e1 : sum - (s.minRD + m + 2 * ((r2 - r1 - (s.minRD + m)) / 2)) = 2 * r1 := by omega
+      have e2 : sum + (s.minRD + m + 2 * ((r2 - r1 - (s.minRD + m)) / 2)) = 2 * r2 := by omega
+      rw [e1, e2]
+      have hx := tdiv2_spec (2 * r1)
+      have hy := tdiv2_spec (2 * r2)
+      have e3 : (2 * r1).tdiv 2 = r1 := by omega
+      have e4 : (2 * r2).tdiv 2 = r2 := by omega
+      rw [e3, e4, if_neg (by omega)]
 
 /-- **one segment**: the ring pairs listed for axial position `a` are exactly the ring pairs of the scanner
     whose ring difference lies in the segment and whose computed axial position is `a` -/
@@ -15,28 +69,164 @@ theorem Seg.mem_ringPairsOf_iff (R : Int) (s : Seg) (off a : Int) (hle : s.minRD
     (r1 r2 : Int) :
     (r1, r2) ∈ s.ringPairsOf R off a ↔
       (0 ≤ r1 ∧ r1 < R ∧ 0 ≤ r2 ∧ r2 < R ∧ s.minRD ≤ r2 - r1 ∧ r2 - r1 ≤ s.maxRD ∧ s.axOf off r1 r2 = a) := by
-  sorry
+  have _ := hle
+  rw [Seg.mem_loop_iff]
+  unfold Seg.axOf Seg.ringSum Seg.inc
+  unfold Seg.Exact at hex
+  by_cases hne : s.maxRD = s.minRD
+  · simp only [hne, bne_self_eq_false, Bool.false_eq_true, if_false, Int.tdiv_one, Int.mul_one]
+    have hx := tdiv2_spec (r1 + r2 - off)
+    constructor
+    · rintro ⟨h1, h2, h3, h4, h5, h6, h7⟩
+      refine ⟨h1, h2, h3, h4, h5, h6, ?_⟩
+      omega
+    · rintro ⟨h1, h2, h3, h4, h5, h6, h7⟩
+      refine ⟨h1, h2, h3, h4, h5, h6, ?_⟩
+      have := hex hne.symm
+      omega
+  · have hb : (s.maxRD != s.minRD) = true := by simpa using hne
+    simp only [hb, if_true]
+    have hx := tdiv2_spec ((r1 + r2 - off) * 2)
+    have hy := tdiv2_spec (2 * a)
+    constructor
+    · rintro ⟨h1, h2, h3, h4, h5, h6, h7⟩
+      refine ⟨h1, h2, h3, h4, h5, h6, ?_⟩
+      omega
+    · rintro ⟨h1, h2, h3, h4, h5, h6, h7⟩
+      refine ⟨h1, h2, h3, h4, h5, h6, ?_⟩
+      omega
 
 /-- no ring pair is listed twice -/
 theorem Seg.ringPairsOf_nodup (R : Int) (s : Seg) (off a : Int) : (s.ringPairsOf R off a).Nodup := by
-  sorry
+  unfold Seg.ringPairsOf
+  generalize s.ringSum off a = sum
+  dsimp only
+  have hm := tmod2_spec (s.minRD + sum)
+  have hq := tdiv2_spec (s.minRD + sum)
+  generalize (s.minRD + sum).tmod 2 = m at *
+  generalize (s.minRD + sum).tdiv 2 = q at *
+  unfold List.Nodup
+  rw [List.pairwise_filterMap]
+  refine List.Pairwise.imp ?_ List.nodup_range
+  intro k k' hkk b hb b' hb' hbb
+  subst hbb
+  split at hb
+  · exact absurd hb (by simp)
+  split at hb'
+  · exact absurd hb' (by simp)
+  simp only [Option.some.injEq] at hb hb'
+  rw [← hb'] at hb
+  simp only [Prod.mk.injEq] at hb
+  have hx := tdiv2_spec (sum - (s.minRD + m + 2 * (k : Int)))
+  have hx' := tdiv2_spec (sum - (s.minRD + m + 2 * (k' : Int)))
+  omega
 
-/-- decidable well-formedness of a geometry's segment table: ranges are non-empty and pairwise disjoint,
-    offsets are integers, single-ring-difference segments are exact, and every ring pair of a covered ring
-    difference gets an axial position inside the segment's range -/
-def Geom.WFb (g : Geom) : Bool :=
-  g.segs.all (fun s => decide (s.minRD ≤ s.maxRD)) &&
-  (List.range g.segs.length).all (fun i => (List.range g.segs.length).all fun j =>
-    i == j || (match g.segs[i]?, g.segs[j]? with
-      | some a, some b => decide (a.maxRD < b.minRD ∨ b.maxRD < a.minRD)
-      | _, _ => true)) &&
-  g.segs.all (fun s => match s.axOff g.R with
-    | none => false
+
+
+/-- `WFb` as propositions -/
+theorem Geom.WFb_spec (g : Geom) (h : g.WFb = true) :
+    (∀ s ∈ g.segs, s.minRD ≤ s.maxRD) ∧
+    (∀ (i j : Nat) (hi : i < g.segs.length) (hj : j < g.segs.length), i ≠ j →
+      g.segs[i].maxRD < g.segs[j].minRD ∨ g.segs[j].maxRD < g.segs[i].minRD) ∧
+    (∀ s ∈ g.segs, ∃ off, s.axOff g.R = some off ∧ s.Exact off ∧
+      ∀ r1 r2 : Int, 0 ≤ r1 → r1 < g.R → 0 ≤ r2 → r2 < g.R → s.minRD ≤ r2 - r1 → r2 - r1 ≤ s.maxRD →
+        0 ≤ s.axOf off r1 r2 ∧ s.axOf off r1 r2 < s.numAx) ∧
+    (∀ first last, g.segs.head? = some first → g.segs.getLast? = some last →
+      ∀ s ∈ g.segs, first.minRD ≤ s.minRD ∧ s.maxRD ≤ last.maxRD) := by
+  unfold Geom.WFb at h
+  simp only [Bool.and_eq_true] at h
+  obtain ⟨⟨⟨hA, hB⟩, hC⟩, hD⟩ := h
+  refine ⟨?_, ?_, ?_, ?_⟩
+  · intro s hs
+    have := List.all_eq_true.mp hA s hs
+    simpa using this
+  · intro i j hi hj hij
+    have := List.all_eq_true.mp (List.all_eq_true.mp hB i (List.mem_range.mpr hi)) j (List.mem_range.mpr hj)
+    rw [List.getElem?_eq_getElem hi, List.getElem?_eq_getElem hj] at this
+    simpa [hij] using this
+  · intro s hs
+    have hs' := List.all_eq_true.mp hC s hs
+    cases hoff : s.axOff g.R with
+    | none => rw [hoff] at hs'; exact absurd hs' (by simp)
     | some off =>
-      (s.minRD != s.maxRD || (s.minRD - off) % 2 == 0) &&
-      (List.range g.R.toNat).all fun r1 => (List.range g.R.toNat).all fun r2 =>
-        let rd := (r2 : Int) - (r1 : Int)
-        !(s.minRD ≤ rd && rd ≤ s.maxRD) || (0 ≤ s.axOf off r1 r2 && s.axOf off r1 r2 < s.numAx))
+      rw [hoff] at hs'
+      simp only [Bool.and_eq_true] at hs'
+      obtain ⟨hE, hF⟩ := hs'
+      refine ⟨off, rfl, ?_, ?_⟩
+      · intro he
+        simp only [Bool.or_eq_true, bne_iff_ne, ne_eq, beq_iff_eq] at hE
+        rcases hE with hE | hE
+        · exact absurd he hE
+        · exact hE
+      · intro r1 r2 h1 h1' h2 h2' h3 h4
+        have := List.all_eq_true.mp (List.all_eq_true.mp hF r1.toNat (List.mem_range.mpr (by omega)))
+          r2.toNat (List.mem_range.mpr (by omega))
+        have e1 : (r1.toNat : Int) = r1 := by omega
+        have e2 : (r2.toNat : Int) = r2 := by omega
+        simp only [e1, e2] at this
+        simpa [h3, h4] using this
+  · intro first last hf hl s hs
+    rw [hf, hl] at hD
+    have := List.all_eq_true.mp hD s hs
+    simpa using this
+
+
+/-- `seg?` is indexing of `segs` shifted by `minSeg` -/
+theorem Geom.seg?_eq_some (g : Geom) (s : Int) (sg : Seg) :
+    g.seg? s = some sg ↔ ∃ k : Nat, ∃ hk : k < g.segs.length, s = g.minSeg + k ∧ g.segs[k] = sg := by
+  unfold Geom.seg?
+  constructor
+  · intro h
+    split at h
+    · exact absurd h (by simp)
+    · rw [List.getElem?_eq_some_iff] at h
+      obtain ⟨hk, he⟩ := h
+      exact ⟨(s - g.minSeg).toNat, hk, by omega, he⟩
+  · rintro ⟨k, hk, rfl, he⟩
+    rw [if_neg (by omega)]
+    have : (g.minSeg + (k : Int) - g.minSeg).toNat = k := by omega
+    rw [this, List.getElem?_eq_getElem hk, he]
+
+/-- for a well-formed table `segOfRingDiff` finds the (unique) segment whose range contains `rd` -/
+theorem Geom.segOfRingDiff_eq_some (g : Geom) (h : g.WFb = true) (rd s : Int) :
+    g.segOfRingDiff rd = some s ↔ ∃ sg, g.seg? s = some sg ∧ sg.minRD ≤ rd ∧ rd ≤ sg.maxRD := by
+  obtain ⟨_, hdisj, _, hord⟩ := g.WFb_spec h
+  constructor
+  · intro hs
+    unfold Geom.segOfRingDiff at hs
+    split at hs
+    · split at hs
+      · exact absurd hs (by simp)
+      · rw [Option.map_eq_some_iff] at hs
+        obtain ⟨k', hk, rfl⟩ := hs
+        simp only [Option.bind_eq_bind, Option.pure_def, Option.bind_eq_some_iff, Option.some.injEq] at hk
+        obtain ⟨k, hk, rfl⟩ := hk
+        rw [List.findIdx?_eq_some_iff_getElem] at hk
+        obtain ⟨hk, hp, _⟩ := hk
+        refine ⟨g.segs[k], (g.seg?_eq_some _ _).mpr ⟨k, hk, rfl, rfl⟩, ?_⟩
+        simpa using hp
+    · exact absurd hs (by simp)
+  · rintro ⟨sg, hsg, h1, h2⟩
+    obtain ⟨k, hk, rfl, he⟩ := (g.seg?_eq_some _ _).mp hsg
+    have hne : g.segs ≠ [] := by
+      intro h0; rw [h0] at hk; exact absurd hk (by simp)
+    have hmem : sg ∈ g.segs := he ▸ List.getElem_mem hk
+    unfold Geom.segOfRingDiff
+    rw [List.getLast?_eq_some_getLast hne, List.head?_eq_some_head hne]
+    have ho := hord _ _ (List.head?_eq_some_head hne) (List.getLast?_eq_some_getLast hne) sg hmem
+    simp only []
+    rw [if_neg (by omega), Option.map_eq_some_iff]
+    refine ⟨(k : Int), ?_, rfl⟩
+    simp only [Option.bind_eq_bind, Option.pure_def, Option.bind_eq_some_iff, Option.some.injEq]
+    refine ⟨k, ?_, rfl⟩
+    rw [List.findIdx?_eq_some_iff_getElem]
+    refine ⟨hk, ?_, ?_⟩
+    · rw [he]; simpa using ⟨h1, h2⟩
+    · intro j hj
+      have := hdisj j k (by omega) hk (by omega)
+      rw [he] at this
+      simp only [Bool.and_eq_true, decide_eq_true_eq, not_and]
+      omega
 
 /-- **whole table**: for a well-formed geometry, a ring pair of the scanner is assigned to `(s, a)` iff it is
     listed for `(s, a)`; in particular every ring pair with a covered ring difference lies in exactly one
@@ -44,13 +234,49 @@ def Geom.WFb (g : Geom) : Bool :=
 theorem Geom.ringpair_partition (g : Geom) (h : g.WFb = true) (r1 r2 : Int)
     (h1 : 0 ≤ r1 ∧ r1 < g.R) (h2 : 0 ≤ r2 ∧ r2 < g.R) (s a : Int) :
     g.segAxOfRingPair r1 r2 = some (s, a) ↔ (r1, r2) ∈ g.ringPairsOf s a := by
-  sorry
+  obtain ⟨hle, _, hax, _⟩ := g.WFb_spec h
+  unfold Geom.segAxOfRingPair Geom.ringPairsOf
+  simp only [Option.bind_eq_bind, Option.pure_def, Option.bind_eq_some_iff, Option.some.injEq, Prod.mk.injEq]
+  constructor
+  · rintro ⟨s', hs', sg, hsg, off, hoff, rfl, rfl⟩
+    rw [g.segOfRingDiff_eq_some h] at hs'
+    obtain ⟨sg', hsg', hr1, hr2⟩ := hs'
+    rw [hsg] at hsg'
+    cases hsg'
+    obtain ⟨k, hk, _, he⟩ := (g.seg?_eq_some _ _).mp hsg
+    have hmem : sg ∈ g.segs := he ▸ List.getElem_mem hk
+    obtain ⟨off', hoff', hex, _⟩ := hax sg hmem
+    rw [hoff] at hoff'
+    cases hoff'
+    simp only [hsg, hoff]
+    rw [Seg.mem_ringPairsOf_iff g.R sg off _ (hle sg hmem) hex]
+    exact ⟨h1.1, h1.2, h2.1, h2.2, hr1, hr2, rfl⟩
+  · intro hm
+    cases hsg : g.seg? s with
+    | none => rw [hsg] at hm; exact absurd hm (by simp)
+    | some sg =>
+      obtain ⟨k, hk, _, he⟩ := (g.seg?_eq_some _ _).mp hsg
+      have hmem : sg ∈ g.segs := he ▸ List.getElem_mem hk
+      obtain ⟨off, hoff, hex, _⟩ := hax sg hmem
+      simp only [hsg, hoff] at hm
+      rw [Seg.mem_ringPairsOf_iff _ sg off _ (hle sg hmem) hex] at hm
+      obtain ⟨_, _, _, _, hr1, hr2, ha⟩ := hm
+      exact ⟨s, (g.segOfRingDiff_eq_some h _ _).mpr ⟨sg, hsg, hr1, hr2⟩, sg, hsg, off, hoff, rfl, ha⟩
 
 /-- covered ring difference ⇒ assigned, with the axial position in range -/
 theorem Geom.covered_assigned (g : Geom) (h : g.WFb = true) (r1 r2 : Int)
     (h1 : 0 ≤ r1 ∧ r1 < g.R) (h2 : 0 ≤ r2 ∧ r2 < g.R)
     (hc : ∃ sg ∈ g.segs, sg.minRD ≤ r2 - r1 ∧ r2 - r1 ≤ sg.maxRD) :
     ∃ s a sg, g.segAxOfRingPair r1 r2 = some (s, a) ∧ g.seg? s = some sg ∧ 0 ≤ a ∧ a < sg.numAx := by
-  sorry
+  obtain ⟨_, _, hax, _⟩ := g.WFb_spec h
+  obtain ⟨sg, hmem, hr1, hr2⟩ := hc
+  obtain ⟨k, hk, he⟩ := List.mem_iff_getElem.mp hmem
+  have hsg : g.seg? (g.minSeg + k) = some sg := (g.seg?_eq_some _ _).mpr ⟨k, hk, rfl, he⟩
+  obtain ⟨off, hoff, _, hrange⟩ := hax sg hmem
+  have ha := hrange r1 r2 h1.1 h1.2 h2.1 h2.2 hr1 hr2
+  refine ⟨g.minSeg + k, sg.axOf off r1 r2, sg, ?_, hsg, ha.1, ha.2⟩
+  unfold Geom.segAxOfRingPair
+  simp only [Option.bind_eq_bind, Option.pure_def, Option.bind_eq_some_iff, Option.some.injEq, Prod.mk.injEq]
+  exact ⟨_, (g.segOfRingDiff_eq_some h _ _).mpr ⟨sg, hsg, hr1, hr2⟩, sg, hsg, off, hoff, rfl, rfl⟩
 
 end StirVerif.C01
